@@ -421,7 +421,10 @@ def gen_dsl(rnd, memheavy=False):
             prog.append(["alu", dst, op, s1, s2])
         elif k < 0.72:
             prog.append(["cmp", DREG[rnd.randrange(4)], ["==", "ltu", "geu"][rnd.randrange(3)], DREG[rnd.randrange(4)], DREG[rnd.randrange(4)]])
-        elif k < 0.87:
+        elif k < 0.78:
+            # conditional move: dst <- src if cond register == 0 (predicated writes, the same condition may guard several)
+            prog.append(["cmov", DREG[rnd.randrange(4)], DREG[rnd.randrange(4)], DREG[rnd.randrange(4)]])
+        elif k < 0.9:
             # 32-bit stores only (a narrower store over a wider one is the listed finding C09-narrow-after-wide),
             # at aligned or arbitrary byte offsets, so that stores overlap partially under the same base
             prog.append(["st", PREG[rnd.randrange(2)], rnd.randrange(0, 3) * 4 if rnd.random() < 0.5 else rnd.randrange(0, 9), 32, DREG[rnd.randrange(4)]])
@@ -469,6 +472,9 @@ def dsl_apply(m, prog):
             else:
                 c = E.oper(E.OP_GEU, x, y)
             m[R_[dst]] = E.tst(c, E.cst(1, 32), E.cst(0, 32))
+        elif ins[0] == "cmov":
+            _, dst, cnd, src = ins
+            m[R_[dst]] = E.tst(m(R_[cnd]) == 0, m(R_[src]), m(R_[dst]))
         elif ins[0] == "st":
             _, pr, off, sz, src = ins
             m[E.mem(R_[pr] + off, sz)] = m(R_[src])[0:sz]
@@ -491,6 +497,10 @@ def dsl_ref(prog, regs, mem):
             _, dst, op, s1, s2 = ins
             x, y = regs[s1], regs[s2]
             regs[dst] = int(x == y) if op == "==" else (int(x < y) if op == "ltu" else int(x >= y))
+        elif ins[0] == "cmov":
+            _, dst, cnd, src = ins
+            if regs[cnd] == 0:
+                regs[dst] = regs[src]
         elif ins[0] == "st":
             _, pr, off, sz, src = ins
             a = regs[pr] + off - DSL_ARENA
